@@ -1203,19 +1203,24 @@ def refguard_deref(it, args, callee):
     return rd(args[0]).f[0]
 
 
-@pattern(r'^(std::sync::atomic::|core::sync::atomic::)?Atomic(Bool|Usize|U64|U32|I64|I32|Isize|U8)::new$')
+@pattern(r'^(std::sync::atomic::|core::sync::atomic::)?Atomic(Bool|Usize|U64|U32|I64|I32|Isize|U8)::new$|^(std::sync::atomic::|core::sync::atomic::)?Atomic::<(bool|usize|u64|u32|i64|i32|isize|u8)>::new$')
 def atomic_new(it, args, callee):
     return Agg('Atomic', (args[0],))
 
 
-@pattern(r'^(std::sync::atomic::|core::sync::atomic::)?Atomic(Bool|Usize|U64|U32|I64|I32|Isize|U8)::(load|store|swap|fetch_add|fetch_sub|fetch_or|fetch_and|compare_exchange|compare_exchange_weak|compare_and_swap)$')
+@pattern(r'^(std::sync::atomic::|core::sync::atomic::)?Atomic(Bool|Usize|U64|U32|I64|I32|Isize|U8|::<\w+>)::(load|store|swap|fetch_add|fetch_sub|fetch_or|fetch_and|compare_exchange|compare_exchange_weak|compare_and_swap)$')
 def atomic_ops(it, args, callee):
-    m = re.search(r'Atomic(\w+)::(\w+)$', callee)
+    m = re.search(r'Atomic(\w+|::<\w+>)::(\w+)$', callee)
     kind, op = m.group(1), m.group(2)
-    ty = {'Bool': 'bool', 'Usize': 'usize', 'U64': 'u64', 'U32': 'u32', 'I64': 'i64', 'I32': 'i32', 'Isize': 'isize', 'U8': 'u8'}[kind]
+    if kind.startswith('::<'):
+        ty = kind[3:-1]
+    else:
+        ty = {'Bool': 'bool', 'Usize': 'usize', 'U64': 'u64', 'U32': 'u32', 'I64': 'i64', 'I32': 'i32', 'Isize': 'isize', 'U8': 'u8'}[kind]
     if it.sched is not None:
         it.sched.yield_point(it, 'atomic ' + op)
     r = args[0]
+    while isinstance(rd(r), Ref):
+        r = rd(r)
     inner = Ref(r.cell, r.path + (('f', 0),))
     old = rd(inner)
     if op == 'load':
@@ -1631,3 +1636,30 @@ def str_strip(it, args, callee):
 @pattern(r'^core::str::<impl str>::(split|splitn|rsplit|split_whitespace|lines|split_terminator|split_once|rsplit_once|char_indices_rev|matches|match_indices|replace|replacen|repeat)(::<.*>)?$')
 def str_split_family(it, args, callee):
     raise Unsupported('str API not modelled: ' + callee[-40:])
+
+
+# =============================================================================== addresses (only their equality is observable)
+
+@pattern(r'^core::str::<impl str>::as_ptr$|^(std::string::)?String::as_ptr$|^(core|std)::slice::<impl \[.*\]>::as_ptr$|^(std::vec::)?Vec::<.*>::as_ptr$')
+def as_ptr(it, args, callee):
+    """the address of a buffer: a fresh symbolic word per distinct buffer object.  Two buffers that are
+    not alive at the same time may or may not share an address (allocator reuse), so the solver is free
+    to make them equal; whether a model is realisable is settled by the native replay."""
+    v = args[0]
+    while isinstance(v, Ref):
+        v = rd(v)
+    key = v.b if isinstance(v, Str) else (v.items if isinstance(v, Arr) else v)
+    if it.x is None:
+        raise Unsupported('as_ptr without exploration context')
+    tab = it.x.__dict__.setdefault('ptrs', {})
+    ent = tab.get(id(key))
+    if ent is None:
+        sym = it.x.bv('addr_%d' % len(tab), 64)
+        ent = (key, sym)
+        tab[id(key)] = ent
+    return ent[1]
+
+
+@pattern(r'^<\*(const|mut) .* as PartialEq>::eq$')
+def rawptr_eq(it, args, callee):
+    return M.generic_eq(it, args[0], args[1])
